@@ -336,7 +336,8 @@ class error_999_visitor(pyx12.error_visitor.error_visitor):
             if err_cde in valid_IK4_codes:
                 seg_data = pyx12.segment.Segment(seg_str, '~', '*', ':')
                 seg_data.set('IK403', err_cde)
-                if bad_value:
+                if bad_value and not any(c in bad_value for c in ('~', '*', ':', '^')):
+                    # a value holding one of this document's delimiters cannot be quoted (IK404 is optional)
                     seg_data.set('IK404', bad_value)
 # todo: add element context
                 self.wr.Write(seg_data)
